@@ -18,8 +18,10 @@
      it closes the auction, the auction's target debt (checked against [target_of] by the runner), the
      owner and the part of the seized collateral the closing bid returns to the owner (auction
      internals, property C10's subject).
-   Not modelled (the generator never issues them / never enables them): ESM kill switch, pool
-   depreciation, DeletePoolAndTransferInterest, the generation-1 liquidation / auction modules
+   The ESM kill switch of an app (esm MsgKillSwitch) and the depreciation of a pool (governance
+   AddPoolDepreciateProposal) are state: the handlers' early returns on them are modelled in place.
+   Not modelled (the generator never issues them / never enables them):
+   DeletePoolAndTransferInterest (block hook that deletes pool records), the generation-1 liquidation / auction modules
    (x/liquidation MsgLiquidateBorrow, x/auction lend bids, CreteNewBorrow, RemoveFaultyAuctions),
    sdk.Int 256-bit overflow of book totals (amounts are bank coins), Int64() conversions inside
    the rate arithmetic. *)
@@ -89,12 +91,17 @@ Record bank := mkBank { bal : list ((Z * Z) * Z); sup : list (Z * Z) }.
 Record state := mkSt {
   lends : list (Z * lendpos); borrows : list (Z * borrowpos); sstats : list ((Z * Z) * stats);
   bnk : bank; lctr : Z; bctr : Z;
-  prices : list (Z * Z) }.                              (* active Twa per asset; absent = no active price *)
+  prices : list (Z * Z);                                (* active Twa per asset; absent = no active price *)
+  killed : list Z;                                      (* apps whose ESM kill switch (BreakerEnable) is on *)
+  depr : list Z }.                                      (* pool ids in the pool-depreciation records *)
 
 Definition with_bank (st : state) (b : bank) : state :=
-  mkSt (lends st) (borrows st) (sstats st) b (lctr st) (bctr st) (prices st).
+  mkSt (lends st) (borrows st) (sstats st) b (lctr st) (bctr st) (prices st) (killed st) (depr st).
 Definition with_books (st : state) (L : list (Z * lendpos)) (B : list (Z * borrowpos)) (S : list ((Z * Z) * stats)) : state :=
-  mkSt L B S (bnk st) (lctr st) (bctr st) (prices st).
+  mkSt L B S (bnk st) (lctr st) (bctr st) (prices st) (killed st) (depr st).
+(* esm GetKillSwitchData(app).BreakerEnable and lend IsPoolDepreciated(pool): both early returns of the handlers *)
+Definition is_killed (st : state) (app : Z) : bool := existsb (Z.eqb app) (killed st).
+Definition is_depr (st : state) (poolid : Z) : bool := existsb (Z.eqb poolid) (depr st).
 
 Definition set_s_lend (s : stats) v := mkStats v (s_bor s) (s_sbor s) (s_tia s) (s_lids s) (s_bids s).
 Definition set_s_bor (s : stats) v := mkStats (s_lend s) v (s_sbor s) (s_tia s) (s_lids s) (s_bids s).
@@ -275,7 +282,9 @@ Definition isolated_blocked (st : state) (user asset : Z) : bool :=
 Definition deposit_asset (cfg : config) (st : state) (user lid denom amt ipb : Z) : outcome state :=
   match zget (lends st) lid with
   | None => Err 1
-  | Some _ =>
+  | Some l0 =>
+      if is_depr st (l_pool l0) then Err 31 else
+      if is_killed st (l_app l0) then Err 32 else
       st1 <- iterate_lends cfg st lid ipb ;;
       match zget (lends st1) lid with
       | None => Panic
@@ -306,6 +315,8 @@ Definition deposit_asset (cfg : config) (st : state) (user lid denom amt ipb : Z
   end.
 
 Definition lend_asset (cfg : config) (st : state) (user asset denom amt poolid app ipb : Z) : outcome state :=
+  if is_depr st poolid then Err 31 else
+  if is_killed st app then Err 32 else
   match zget (c_assets cfg) asset with
   | None => Err 5
   | Some a =>
@@ -342,7 +353,7 @@ Definition lend_asset (cfg : config) (st : state) (user asset denom amt poolid a
                 | None => Err 18
                 | Some s =>
                     Ok (mkSt (zset (lends st) id l) (borrows st) (pset S1 (poolid, asset) (set_s_lids s (s_lids s ++ [id])))
-                             b3 id (bctr st) (prices st))
+                             b3 id (bctr st) (prices st) (killed st) (depr st))
                 end
             end
         end
@@ -351,7 +362,8 @@ Definition lend_asset (cfg : config) (st : state) (user asset denom amt poolid a
 Definition close_lend (cfg : config) (st : state) (user lid ipb : Z) : outcome state :=
   match zget (lends st) lid with
   | None => Err 1
-  | Some _ =>
+  | Some l0 =>
+      if is_killed st (l_app l0) then Err 32 else
       st1 <- iterate_lends cfg st lid ipb ;;
       match zget (lends st1) lid with
       | None => Panic
@@ -389,6 +401,7 @@ Definition withdraw_asset (cfg : config) (st : state) (user lid denom amt ipb : 
   | None => Err 1
   | Some l0 =>
       if (amt =? l_avail l0) && (l_avail l0 >=? l_in l0) then close_lend cfg st user lid ipb else
+      if is_killed st (l_app l0) then Err 32 else
       st1 <- iterate_lends cfg st lid ipb ;;
       match zget (lends st1) lid with
       | None => Panic
@@ -440,6 +453,8 @@ Definition deposit_borrow_asset (cfg : config) (st : state) (bid user denom amt 
       match zget (lends st) (b_lend b0) with
       | None => Err 1
       | Some l =>
+          if is_depr st (l_pool l) then Err 31 else
+          if is_killed st (l_app l) then Err 32 else
           if negb (l_owner l =? user) then Err 3 else
           st1 <- iterate_borrow st bid e ;;
           match zget (borrows st1) bid with
@@ -514,6 +529,8 @@ Definition draw_asset (cfg : config) (st : state) (bid user denom amt : Z) (e : 
       match zget (lends st) (b_lend b0) with
       | None => Err 1
       | Some l =>
+          if is_depr st (l_pool l) then Err 31 else
+          if is_killed st (l_app l) then Err 32 else
           if negb (l_owner l =? user) then Err 3 else
           st1 <- iterate_borrow st bid e ;;
           match zget (borrows st1) bid with
@@ -562,6 +579,7 @@ Definition close_borrow (cfg : config) (st : state) (user bid : Z) (e : biter) :
       match zget (lends st) (b_lend b0) with
       | None => Err 1
       | Some l =>
+          if is_killed st (l_app l) then Err 32 else
           if negb (l_owner l =? user) then Err 3 else
           st1 <- iterate_borrow st bid e ;;
           match zget (borrows st1) bid with
@@ -622,6 +640,7 @@ Definition repay_asset (cfg : config) (st : state) (bid user denom pay : Z) (e :
       match zget (lends st) (b_lend b0) with
       | None => Err 1
       | Some l =>
+          if is_killed st (l_app l) then Err 32 else
           if negb (l_owner l =? user) then Err 3 else
           st1 <- iterate_borrow st bid e ;;
           match zget (borrows st1) bid with
@@ -682,7 +701,7 @@ Definition open_borrow (st : state) (bk : bank) (lid : Z) (l : lendpos) (pr : pa
   | Some s =>
       let l1 := upd_lend l (l_in l) (l_avail l - ain) (l_rewards l) (l_tracker l) (l_bids l ++ [id]) in
       Ok (mkSt (zset (lends st) lid l1) (zset (borrows st) id bp) (pset S1 k (set_s_bids s (s_bids s ++ [id])))
-               bk (lctr st) id (prices st))
+               bk (lctr st) id (prices st) (killed st) (depr st))
   end.
 
 Definition borrow_asset (cfg : config) (st : state) (user lid pid : Z) (stable : bool) (din ain dout aout : Z)
@@ -690,6 +709,8 @@ Definition borrow_asset (cfg : config) (st : state) (user lid pid : Z) (stable :
   match zget (lends st) lid with
   | None => Err 1
   | Some l =>
+  if is_depr st (l_pool l) then Err 31 else
+  if is_killed st (l_app l) then Err 32 else
   if negb (l_owner l =? user) then Err 3 else
   match zget (c_pairs cfg) pid with
   | None => Err 4
@@ -776,6 +797,8 @@ Definition borrow_asset (cfg : config) (st : state) (user lid pid : Z) (stable :
 
 Definition borrow_alternate (cfg : config) (st : state) (user asset poolid din ain pid : Z) (stable : bool)
            (dout aout app ipb : Z) (e1 e2 : biter) : outcome state :=
+  if is_killed st app then Err 32 else
+  if is_depr st poolid then Err 31 else
   match zget (c_assets cfg) asset with
   | None => Err 5
   | Some a =>
@@ -814,7 +837,7 @@ Definition borrow_alternate (cfg : config) (st : state) (user asset poolid din a
                 | None => Panic
                 | Some s =>
                     let st1 := mkSt (zset (lends st) id l) (borrows st) (pset S1 (poolid, asset) (set_s_lids s (s_lids s ++ [id])))
-                                    b3 id (bctr st) (prices st) in
+                                    b3 id (bctr st) (prices st) (killed st) (depr st) in
                     borrow_asset cfg st1 user id pid stable cden ain dout aout e1 e2
                 end
           end
@@ -830,6 +853,7 @@ Definition calc_borrow_interest (st : state) (user bid : Z) (e : biter) : outcom
       match zget (lends st) (b_lend b0) with
       | None => Err 1
       | Some l =>
+          if is_killed st (l_app l) then Err 32 else
           if negb (l_owner l =? user) then Err 3 else
           st1 <- iterate_borrow st bid e ;;
           match zget (borrows st1) bid with None => Err 9 | Some _ => Ok st1 end
@@ -838,7 +862,8 @@ Definition calc_borrow_interest (st : state) (user bid : Z) (e : biter) : outcom
 Definition calc_lend_rewards (cfg : config) (st : state) (user lid ipb : Z) : outcome state :=
   match zget (lends st) lid with
   | None => Err 1
-  | Some _ =>
+  | Some l0 =>
+      if is_killed st (l_app l0) then Err 32 else
       st1 <- iterate_lends cfg st lid ipb ;;
       match zget (lends st1) lid with
       | None => Panic
@@ -901,6 +926,7 @@ Definition hand_over (cfg : config) (st : state) (bid d dint : Z) : outcome stat
       match zget (lends st) (b_lend b0) with
       | None => Err 1
       | Some l =>
+          if is_killed st (l_app l) then Err 43 else         (* "kill Switch is enabled in Liquidation" *)
           if d =? 2 then Err 42 else if d =? 3 then Panic else
           if negb (d =? 1) then Ok st else
           match zget (c_pools cfg) (l_pool l), cdenom_of cfg (pr_in pr) with
@@ -1100,7 +1126,9 @@ Inductive op :=
 | OAucClose (bid target owner back : Z)            (* the closing MsgPlaceMarketBid: MsgCloseDutchAuctionForBorrow *)
 | ORepayWithdraw (user bid : Z) (e : biter) (ipb : Z)
 | OFundMod (user poolid asset denom amt : Z)       (* MsgFundModuleAccounts *)
-| OFundReserve (user asset denom amt : Z).         (* MsgFundReserveAccounts *)
+| OFundReserve (user asset denom amt : Z)          (* MsgFundReserveAccounts *)
+| OKill (admin : bool) (app : Z) (on : bool)       (* esm MsgKillSwitch{AppId, BreakerEnable} *)
+| ODepreciate (poolid : Z).                        (* governance: AddPoolDepreciateProposal for one pool *)
 
 Definition step (cfg : config) (st : state) (o : op) : outcome state :=
   match o with
@@ -1124,13 +1152,28 @@ Definition step (cfg : config) (st : state) (o : op) : outcome state :=
   | OCalc u es ipbs => calc_all cfg st u es ipbs
   | OSetPrice a p =>
       Ok (mkSt (lends st) (borrows st) (sstats st) (bnk st) (lctr st) (bctr st)
-               (match p with Some v => zset (prices st) a v | None => zdel (prices st) a end))
+               (match p with Some v => zset (prices st) a v | None => zdel (prices st) a end) (killed st) (depr st))
   | OHandOver bid d dint => if bid =? 0 then Err 100 else hand_over cfg st bid d dint
   | OAucBid bid d => auc_bid st bid d
   | OAucClose bid target owner back => auc_close cfg st bid target owner back
   | ORepayWithdraw u bid e ipb => if bid =? 0 then Err 100 else repay_withdraw cfg st u bid e ipb
   | OFundMod u p a d amt => if (p =? 0) || (a =? 0) || (amt <=? 0) then Err 100 else fund_mod cfg st u p a d amt
   | OFundReserve u a d amt => if (a =? 0) || (amt <=? 0) then Err 100 else fund_reserve cfg st u a d amt
+  | OKill admin app on =>
+      (* esm msg server: the sender is one of the admins; SetKillSwitchData: the app exists *)
+      if negb admin then Err 60 else
+      match zget (c_apps cfg) app with
+      | None => Err 61
+      | Some _ =>
+          let ks := filter (fun x => negb (x =? app)) (killed st) in
+          Ok (mkSt (lends st) (borrows st) (sstats st) (bnk st) (lctr st) (bctr st) (prices st) (if on then app :: ks else ks) (depr st))
+      end
+  | ODepreciate p =>
+      (* AddPoolDepreciate: the pool exists; the record is appended (IsPoolDepreciated looks at the pool id only) *)
+      match zget (c_pools cfg) p with
+      | None => Err 2
+      | Some _ => Ok (mkSt (lends st) (borrows st) (sstats st) (bnk st) (lctr st) (bctr st) (prices st) (killed st) (depr st ++ [p]))
+      end
   end.
 
 (* baseapp: the writes of a message are kept only when it returns no error and does not panic *)
